@@ -197,7 +197,7 @@ func runXfer(w *world, x *xfer, mon *wireMon, partition, tail bool) {
 	} else {
 		w.run(func() bool { return x.writersDone() && x.allSettled() }, w.now()+faultPhase)
 	}
-	if w.viol != nil || w.aborted != "" {
+	if w.stopped() {
 		return
 	}
 	if partition {
@@ -245,7 +245,7 @@ func runXfer(w *world, x *xfer, mon *wireMon, partition, tail bool) {
 	r := w.run(func() bool {
 		return x.writersDone() && x.allSettled() && x.drained() && x.tailDelivered() && !x.readablePending()
 	}, x.healAt+bound)
-	if w.viol != nil || w.aborted != "" {
+	if w.stopped() {
 		return
 	}
 	if r != stopCond {
@@ -313,7 +313,7 @@ func runXfer(w *world, x *xfer, mon *wireMon, partition, tail bool) {
 
 	// let delayed acks and late duplicates settle, then the end-state oracles
 	w.quiesce(5 * time.Second)
-	if w.viol != nil || w.aborted != "" {
+	if w.stopped() {
 		return
 	}
 	x.finalChecks(mon)
